@@ -501,6 +501,14 @@ def gen_calls(rng, sigs, per_overload):
     return out, skipped
 
 
+def run_sliced(reqs, per_req_timeout=5.0, width=96):
+    """run_harness in slices small enough that one request that hangs natively costs seconds, not the whole chunk budget"""
+    out = []
+    for i in range(0, len(reqs), width):
+        out.extend(run_harness(reqs[i:i + width], per_req_timeout=per_req_timeout))
+    return out
+
+
 def fail_of(r):
     if "panic" in r:
         return "panic", r["panic"]
@@ -554,7 +562,7 @@ def run_bindings(chk, items, limits, tag, chunk=24, with_types=True, prelude=LIB
 
     batches = [list(range(i, min(i + chunk, len(items)))) for i in range(0, len(items), chunk)]
     reqs = [mk(b) for b in batches]
-    resps = run_harness(reqs, per_req_timeout=15.0)
+    resps = run_sliced(reqs)
     singles = []
     for b, r, q in zip(batches, resps, reqs):
         ok = fail_of(r) is None and r.get("compile") == "ok" and r.get("inst") == "ok"
@@ -565,7 +573,7 @@ def run_bindings(chk, items, limits, tag, chunk=24, with_types=True, prelude=LIB
             singles.extend(b)
     if singles:
         reqs = [mk([j]) for j in singles]
-        resps = run_harness(reqs, per_req_timeout=15.0)
+        resps = run_sliced(reqs)
         for j, r, q in zip(singles, resps, reqs):
             settle(j, r, q)
     chk.count(f"{tag}:programs", len(batches) + len(singles))
@@ -663,6 +671,9 @@ def report_failure(chk, tag, label, r, extra=None):
     kind = r["outcome"]
     if kind == "hang":
         chk.count(f"{tag}:hang")
+        hs = chk.coverage.setdefault("hangs_seen_not_judged_here", [])
+        if len(hs) < 12:
+            hs.append({"what": label, "src": r["src"][-400:], "limits": r.get("limits", {})})
         return
     where = short_loc(r["detail"]) if kind == "panic" else "abort"
     replay = {"src": r["src"], "limits": r.get("limits", {}), "what": label, "failure": kind + " " + r["detail"][:300]}
@@ -837,7 +848,7 @@ def script_search(chk, n_mut):
         lim = SCRIPT_LIMITS[0] if rng.random() < 0.6 else SCRIPT_LIMITS[1]
         reqs.append({"op": "typing", "f": "run", "src": m, "get": lets, "types": lets, "calls": fns, "limits": lim})
         meta.append((name, "mut-" + kind, lim))
-    resps = run_harness(reqs, per_req_timeout=15.0)
+    resps = run_sliced(reqs)
     for (name, kind, lim), q, r in zip(meta, reqs, resps):
         chk.evaluations += 1
         f = fail_of(r)
@@ -1018,7 +1029,9 @@ class Mutator:
                 i = rng.choice(fns)
                 d = ds[i]
                 if kind == 'ret-type':
-                    new_t = rng.choice([t for t in ('int', 'bool', 'str') if t != d[3]])
+                    new_t = ('fn', [], 'int')        # (see param-type: every primitive type has library operators of its own)
+                    if d[3] == new_t:
+                        continue
                     return ds[:i] + [(d[0], d[1], d[2], new_t, d[4], d[5])] + ds[i + 1:], kind
                 if not d[2]:
                     continue
@@ -1052,7 +1065,7 @@ class Mutator:
                 args = list(e[2])
                 del args[rng.randrange(len(args))]
                 new = (e[0], e[1], args)
-            elif kind == 'extra-arg' and e[0] in ('c', 'ce') and not (e[0] == 'c' and e[1] in ('display', 'to_str', 'len', 'error', 'if_error')):
+            elif kind == 'extra-arg' and e[0] in ('c', 'ce') and (e[0] == 'ce' or e[1] in ('if', 'and', 'or', 'not', 'neg', 'sub', 'mod') or e[1] not in cg.STRICT | {'if_error', 'is_error', 'display'}):
                 new = (e[0], e[1], list(e[2]) + [rng.choice([('i', 1), ('b', False), ('s', 'x')])])
             elif kind == 'item-range' and e[0] == 'item':
                 new = ('item', e[1], e[2] + rng.choice([1, 2, 3, 7]))
@@ -1203,7 +1216,7 @@ def run_corpus(chk):
         for lim in d.get("limits_list") or [d.get("limits", {})]:
             reqs.append({"op": "typing", "f": "run", "src": d["src"], "get": d.get("get", []), "types": d.get("get", []), "calls": d.get("calls", []), "limits": lim})
             metas.append((os.path.basename(f), d, lim))
-    for (name, d, lim), q, r in zip(metas, reqs, run_harness(reqs, per_req_timeout=20.0)):
+    for (name, d, lim), q, r in zip(metas, reqs, run_sliced(reqs, per_req_timeout=12.0)):
         chk.evaluations += 1
         f = fail_of(r)
         chk.count("corpus:" + (f[0] if f else "no-failure"))
